@@ -272,7 +272,7 @@ func Y(site uint32) {
 		// finish within a grace budget, then end the run (a background worker is
 		// not a C19 matter)
 		graceSteps++
-		if graceSteps > 200_000 {
+		if graceSteps > 50_000 {
 			stats.LeakedTasks++
 			markSurvivors()
 			allDone = true
@@ -285,7 +285,9 @@ func Y(site uint32) {
 		return
 	}
 	if t.opSteps > softBudget {
-		if t.opSteps > opBudget {
+		// (the hard budget is for client operations: a library goroutine that
+		// lives for the whole process has no operation to finish)
+		if t.opSteps > opBudget && t.client {
 			abort(stallKind("no-progress"), stallWhy()+noProgressDetail(t, site))
 		}
 		// Starvation guard: an operation that has run unusually long may be
@@ -1134,10 +1136,26 @@ func RunTasks(s Sched, f Faults, bodies []func()) (Stats, []Switch) {
 	}
 	clientsLeft = int32(len(bodies))
 	graceSteps = 0
+	var cleanupTask int32 = -1
+	fs := takePendingCleanups()
+	if len(fs) > 0 {
+		// cleanups queued at the last run boundary: a library task of this run
+		cleanupTask = spawn(false)
+	}
 	first := start()
 	joinWG.Add(len(bodies))
 	for i, b := range bodies {
 		go runTask(int32(i+1), b)
+	}
+	if cleanupTask >= 0 {
+		joinWG.Add(1)
+		go runTask(cleanupTask, func() {
+			for _, f := range fs {
+				f()
+			}
+		})
+	} else if len(fs) > 0 {
+		queueCleanups(fs) // no free task slot: try again next run
 	}
 	drive(first)
 	joinWG.Wait() // the one real synchronisation: join of all tasks
